@@ -44,6 +44,9 @@ func init() {
 	check.Register("staking", scnStaking)
 	check.Register("faults", scnFaults)
 	check.Register("replica", scnReplica)
+	check.Register("selection", scnSelection)
+	check.Register("hostile", scnHostile)
+	check.Register("config", scnConfig)
 	monitorFactories["C19"] = func() []world.Monitor { return []world.Monitor{&C19{}} }
 	monitorFactories["C20"] = func() []world.Monitor { return []world.Monitor{&C20{}} }
 	simpleJobs := func(prop, scn string, qn, tn int, qargs, targs map[string]string) func(string, int64) []check.Job {
@@ -118,6 +121,70 @@ func init() {
 			}, c03thorough),
 		MinCases: map[string]int{"quick": 4, "thorough": 8},
 		Assumptions: []string{"a restart is a new OS process over the same goleveldb directory; the leader runs in one process without interruption"}})
+	monitorFactories["C02"] = func() []world.Monitor { return []world.Monitor{&C02{}} }
+	check.RegisterSpec(&check.Spec{Prop: "C02", Level: "exploration",
+		Rule: "every ABCI call (and every direct call of the selection functions) runs under recover() and a CPU-time watchdog (a call burning more than 60 CPU-seconds is declared non-terminating; the largest terminating call observed is reported). Workloads: adversarial field values for every message (sizes 0..2^64-1, replicas <=0/huge, durations up to 2^64-1, timeouts 1..2^31-1, ids of 35/36/37 characters, separator-only commit ids, invalid cids/peers/validators) followed by block advance across every scheduled height; generated node populations (3..160 nodes, status bits, reputations around the floor, capacities around the shard size, 0..3 super nodes, stale super-node cursors) with replica counts around the eligible population, silent providers and migrations; direct calls of RandomSP / RandomIndex with seeds {empty, 1 byte, tiny, real 32-byte hashes} and counts near totals; a sweep of parameter sets that pass validation (block reward 0..8e14 around the 4e14 total, baseline, APY, halving/adjustment periods from 11, offline trigger from 1, thresholds); and the lifecycle / staking / did / fault / authorization walks of the other checks. A halt is a panic escaping InitChain/BeginBlock/EndBlock/Commit or a watchdog firing; a panic recovered inside DeliverTx is compliant and counted. A case is (transaction kind, result code) or (block housekeeping kind); distinct_nontrivial counts distinct cases.",
+		Jobs: func(tier string, seed int64) []check.Job {
+			var jobs []check.Job
+			add := func(scn string, n int, args map[string]string) {
+				for i := 0; i < n; i++ {
+					a := map[string]string{}
+					for k, v := range args {
+						a[k] = v
+					}
+					if scn == "config" {
+						a["config"] = fmt.Sprint(int(seed)*7 + i)
+					}
+					if scn == "life" {
+						a["profile"] = []string{"mixed", "renewheavy", "timeouts", "migrate", "rewards"}[i%5]
+					}
+					jobs = append(jobs, check.Job{Prop: "C02", Scenario: scn, Seed: seed*49979687 + int64(len(jobs)), Args: a})
+				}
+			}
+			if tier == "thorough" {
+				add("hostile", 10, map[string]string{"n": "400"})
+				add("selection", 24, map[string]string{"direct": "3000", "orders": "16"})
+				add("selection", 10, map[string]string{"direct": "3000", "orders": "10", "bigpop": "1"})
+				add("config", 120, map[string]string{"ops": "40"})
+				add("life", 20, map[string]string{"ops": "110", "bigtimeout": "1"})
+				add("staking", 6, map[string]string{"ops": "600", "offline": "40"})
+				add("faults", 4, map[string]string{"ops": "500"})
+				add("didreg", 4, map[string]string{"ops": "800"})
+				add("authz", 2, map[string]string{"rounds": "1", "relayers": "2"})
+				add("actor", 2, map[string]string{"rounds": "3"})
+			} else {
+				add("hostile", 2, map[string]string{"n": "120"})
+				add("selection", 3, map[string]string{"direct": "500", "orders": "8"})
+				add("selection", 1, map[string]string{"direct": "500", "orders": "6", "bigpop": "1"})
+				add("config", 12, map[string]string{"ops": "14"})
+				add("life", 2, map[string]string{"ops": "40", "bigtimeout": "1"})
+				add("staking", 1, map[string]string{"ops": "150", "offline": "40"})
+			}
+			return jobs
+		},
+		Post:     c02Post,
+		MinCases: map[string]int{"quick": 40, "thorough": 80},
+		Assumptions: []string{"non-termination is decided by a CPU-time budget far above any terminating call (evidence, not proof)", "single-denomination genesis files built by the harness"}})
+	c15life := lifeJobs("C15", 2, 16, nil)
+	check.RegisterSpec(&check.Spec{Prop: "C15", Level: "exploration",
+		Rule: "generated node populations (status bits, reputations 0/7999.5/8000/8000.5/10000, roles, capacities shardSize-1/shardSize/shardSize+1/large, last-alive heights) with stores of replica 1..eligible+1, silent providers (timeout re-assignment with the real ignore lists) and migrations through the ABCI; plus direct calls of RandomSP/RandomIndex on cache-branched contexts with seeds {empty, 1 byte, tiny, 32-byte hashes}, random ignore lists, counts near totals and stale super-node cursors. The oracle evaluates the eligibility predicate on the snapshot immediately before each selection and compares with the shards that appear. A case is (selection kind, role of the chosen node, population bucket, shards chosen) or (direct call shape); distinct_nontrivial counts distinct cases.",
+		Jobs: func(tier string, seed int64) []check.Job {
+			jobs := c15life(tier, seed)
+			n, direct := 4, "400"
+			if tier == "thorough" {
+				n, direct = 40, "3000"
+			}
+			for i := 0; i < n; i++ {
+				a := map[string]string{"direct": direct, "orders": "12"}
+				if i%4 == 3 {
+					a["bigpop"] = "1"
+				}
+				jobs = append(jobs, check.Job{Prop: "C15", Scenario: "selection", Seed: seed*86028121 + int64(i), Args: a})
+			}
+			return jobs
+		},
+		MinCases: map[string]int{"quick": 20, "thorough": 40},
+		Assumptions: []string{"eligibility is evaluated on the state read immediately before the transaction / end block"}})
 	check.RegisterSpec(&check.Spec{Prop: "C19", Level: "exploration",
 		Rule:        "seeded sequences of report / recover messages by {three fishmen, ordinary node, non-node, provider} against stored shards with contents {matching, wrong order, wrong data id, wrong shard, the order's own commit id, shard of another provider, data id of another order, provider mismatch, duplicates, expired targets}, interleaved with block advance across 600-block penalty ticks and shard expiry; the oracle diffs the raw fault table, all balances, orders, shards and pledges around every message. A case is (message, reporter class / content class, accepted, table changed); distinct_nontrivial counts distinct cases.",
 		Jobs:        simpleJobs("C19", "faults", 4, 32, map[string]string{"ops": "150"}, map[string]string{"ops": "900"}),
@@ -183,7 +250,7 @@ func init() {
 		Jobs:        lifeJobs("C13", 5, 64, nil),
 		MinCases:    map[string]int{"quick": 10, "thorough": 30},
 		Assumptions: []string{"state is read through the keepers' own getters over the committed multistore", "workloads reach only the states the seeded walks produce"}})
-	for _, id := range []string{"C04", "C05", "C06", "C07", "C08", "C11", "C15"} {
+	for _, id := range []string{"C04", "C05", "C06", "C07", "C08", "C11"} {
 		check.RegisterSpec(&check.Spec{Prop: id, Level: "exploration", Rule: "lifecycle walks (draft)", Jobs: lifeJobs(id, 5, 64, nil), MinCases: map[string]int{"quick": 4, "thorough": 8}})
 	}
 	c16life := lifeJobs("C16", 3, 40, nil)
